@@ -232,6 +232,39 @@ class bptk():
         if(not "lock" in state.keys()):
             state["lock"] = False
         self.session_state = state
+        self._session_restored = True # the scenarios are brought up to date lazily, see _replay_session
+
+    def _replay_session(self):
+        """Bring the scenarios of a restored session into the state they were in when the session was saved.
+
+        The session state only records what was asked for and what was returned (settings_log, results_log). The scenarios themselves are created afresh, so the session settings are applied again and the logged steps are re-run with the settings they were run with. The logs themselves are kept as they were saved.
+        """
+        self._session_restored = False
+        state = self.session_state
+        if not state:
+            return
+
+        for _, manager in self.scenario_manager_factory.scenario_managers.items():
+            if manager.name in state["scenario_managers"]:
+                for scenario, scenario_object in manager.scenarios.items():
+                    if scenario in state["scenarios"]:
+                        if manager.name in state["settings"] and scenario in state["settings"][manager.name] and hasattr(scenario_object, "configure_settings"):
+                            scenario_object.configure_settings(state["settings"][manager.name][scenario])
+                        self.reset_scenario_cache(scenario_manager=manager.name, scenario=scenario)
+
+        settings_log = state["settings_log"]
+        results_log = state["results_log"]
+        step = state["step"]
+        state["settings_log"] = {}
+        state["results_log"] = {}
+        state["step"] = state["starttime"]
+        try:
+            for logged_step in sorted(results_log.keys(), key=float):
+                self.run_step(settings=settings_log.get(logged_step))
+        finally:
+            state["settings_log"] = settings_log
+            state["results_log"] = results_log
+            state["step"] = step
 
     def lock(self):
         """Try to lock the instance for stepping.
@@ -500,6 +533,9 @@ class bptk():
         """
         if not self.session_state:
             return None
+
+        if getattr(self, "_session_restored", False):
+            self._replay_session()
 
         scenario_managers = self.session_state["scenario_managers"]
         agents = self.session_state["agents"]
